@@ -28,7 +28,7 @@ ASSUMPTIONS = [
     "don't-care pairs (bool against float/complex, Any, Literal containing 1 vs True/1.0, str against Sequence) give no verdict",
     "with the switch off, non-node values in child fields are outside the statement (the digest needs child nodes); property fields accept any value",
 ]
-MUST_SEE = ["ill_typed_origin", "mixin_inherited_fields", "failed_operations_with_checks_on", "same_annotation_text_other_type", "false_vs_bool", "bool_vs_int", "bool_vs_int_union", "bool_in_int_tuple", "fixed_tuple_too_long", "fixed_tuple_too_short", "multi_two_bad", "noninit_bad_default", "switch_off_same_node", "nonconforming", "conforming", "noncompare_fields_checked", "ill_typed_value_equal_to_default", "parent_used_before_subclass"]
+MUST_SEE = ["field_names_resembling_builtin_ones", "ill_typed_origin", "mixin_inherited_fields", "failed_operations_with_checks_on", "same_annotation_text_other_type", "false_vs_bool", "bool_vs_int", "bool_vs_int_union", "bool_in_int_tuple", "fixed_tuple_too_long", "fixed_tuple_too_short", "multi_two_bad", "noninit_bad_default", "switch_off_same_node", "nonconforming", "conforming", "noncompare_fields_checked", "ill_typed_value_equal_to_default", "parent_used_before_subclass"]
 CONFIG = {
     "quick": {"shards": 16, "d2_sample": 150, "multi": 300, "watchdog_s": 600},
     "thorough": {"shards": 32, "d2_sample": 400, "multi": 600, "watchdog_s": 3400},
@@ -38,7 +38,9 @@ CONFIG = {
 def value_pool(ns, P):
     C = ns[f"{P}Color"]
     n0, n1, fz, l0 = ns[f"{P}N0"](v=1), ns[f"{P}N1"](v=2, w="w"), ns[f"{P}Fz"](v=3), ns[f"{P}L0"](v=4)
-    base = [True, False, 0, 1, 2, 1.5, "", "x", "a", None, C.RED, C.GREEN, n0, n1, fz, l0]
+    # values equal to literal members but built at run time (other objects than the constants in the annotation)
+    built = ["".join(["alpha", "-", "beta"]), int("65536"), "".join(["alpha", "-", "bet"]), int("65537")]
+    base = [True, False, 0, 1, 2, 1.5, "", "x", "a", None, C.RED, C.GREEN, n0, n1, fz, l0] + built
     pool = list(base)
     pool.append(())
     for b in base:
@@ -211,6 +213,24 @@ def run_shard(ctx):
                 r[1].detach()
             if got != exp:
                 ctx.violation("nonconforming-accepted" if exp and r[0] == "ok" else "invalid-fields-wrong", f"{cn[len(P):]}: fields inherited from a plain dataclass mixin: invalid fields {got}, expected {exp}", {"class": cn[len(P):], "source": src.replace(P, ""), "values": {k_: vrepr(v) for k_, v in kw.items()}})
+    # ------------------------------------------------------------ field names that resemble the built-in ones
+    names = ["content", "on", "con", "t", "d", "i", "_id", "origin_", "ids", "c", "tent"]
+    src = f"@dataclass(frozen=True)\nclass {P}Names(ASTNode):\n" + "".join(f"    {nm}: int = 0\n" for nm in names) + f"    kid_id: {P}IVLeaf | None = None\n"
+    exec(compile(src, "<c13 names>", "exec", dont_inherit=True), ns)
+    for k in range(len(names) + 1):
+        badn = sorted(rng.sample(names, 2)) if k == len(names) else [names[k]]
+        kw = {nm: "ill-typed" for nm in badn}
+        if k % 3 == 0:
+            kw["kid_id"] = 5
+            badn = sorted(badn + ["kid_id"])
+        ctx.evaluations += 1
+        ctx.count("field_names_resembling_builtin_ones")
+        r = construct(ns[f"{P}Names"], kw, True)
+        got = [] if r[0] == "ok" else r[1]
+        if r[0] == "ok":
+            r[1].detach()
+        if got != badn:
+            ctx.violation("nonconforming-accepted" if r[0] == "ok" else "invalid-fields-wrong", f"ill-typed values in fields {badn}: invalid fields {got}", {"values": {k_: vrepr(v) for k_, v in kw.items()}})
     # ------------------------------------------------------------ the built-in origin field is type checked like any other
     from pyoak.origin import NO_ORIGIN, MemoryTextSource
 
